@@ -180,7 +180,7 @@ void boundary_case(vh::Case& c) {
 void random_prime_case(vh::Case& c) {
   vh::Rng& r = c.rng;
   unsigned mode = (unsigned)r.below(100);
-  uint64_t bound = mode < 70 ? 2048 : mode < 96 ? 16384 : 65536;
+  uint64_t bound = mode < 70 ? 2048 : mode < 92 ? 16384 : 65536;
   unsigned p = (unsigned)random_prime_below(r, bound);
   Cls cls = (Cls)r.below(3);
   if (cls == COH_ZP && p > 46337) cls = ZP_OPS;
@@ -192,7 +192,8 @@ void random_prime_case(vh::Case& c) {
 void refuse_case(vh::Case& c) {
   static const std::vector<long> fixed = [] {
     std::vector<long> v = {0, 1, 4, 6, 8, 9, 10, 12, 14, 15, 16, 21, 25, 27, 33, 35, 49, 51, 55, 57, 63, 65, 77, 85, 91, 119, 121, 143, 169, 255, 256, 289, 341, 361,
-                           529, 1001, 1024, 4087, 4096, 10403, 32767, 32768, 46335, 46336, 46338, 46341, 49729, 63001, 64507, 65025, 65533, 65535, 65536, 66049, 100000, 131072};
+                           529, 1001, 1024, 4087, 4096, 10403, 32767, 32768, 46335, 46336, 46338, 46341, 49729, 63001, 64507, 65025, 65533, 65535, 65536, 66049, 100000, 131072,
+                           46349, 65521, 1000003 /* primes above the documented maximum of Field_Zp: only submitted to Field_Zp */};
     for (unsigned x : kCarmichael) v.push_back(x);
     return v;
   }();
@@ -205,6 +206,7 @@ void refuse_case(vh::Case& c) {
   else if (form == 3 && r.chance(1, 4)) n = -(long)r.below(100000) - 1;               // Field_Zp takes an int: negative values
   else if (form == 3 && r.chance(1, 6)) n = 46338 + (long)r.below(2000000);           // any value above its documented maximum
   else { do { n = 4 + (long)r.below(65532); } while (is_prime_naive((uint64_t)n)); }  // random composite below 2^16
+  if (form != 3 && n >= 2 && is_prime_naive((uint64_t)n)) { c.count("skip.prime_is_a_valid_characteristic"); return; }
   const char* cls = form <= 1 ? kClsName[ZP_OPS] : form == 2 ? kClsName[ZP_SHARED] : kClsName[COH_ZP];
   const char* why = n < 2 ? "not_greater_than_1" : is_prime_naive((uint64_t)n) ? "prime_above_documented_maximum" : "composite";
   std::string desc = std::string("refuse class=") + cls + " form=" + std::to_string(form) + " characteristic=" + std::to_string(n);
